@@ -17,8 +17,10 @@ use std::collections::{BTreeMap, BTreeSet};
 #[derive(Clone, Debug, Serialize, Deserialize, PartialEq)]
 pub struct Case {
     pub doc: Doc,
-    /// one entry per read call: bit0 = use the resolving read; bits1..2 at a Start event:
-    /// 0/1 = go on reading, 2 = skip with read_to_end*, 3 = read_text (slice) / read_to_end* (others)
+    /// one entry per read call: bit0 = use the resolving read; bits1..2: 0/1 = go on reading,
+    /// 2 = skip with read_to_end*, 3 = read_text (slice) / read_to_end* (others). After a Start
+    /// event the element just opened is skipped; after any other event the REST of the innermost
+    /// open element is skipped
     pub choices: Vec<u8>,
     /// 0 slice, 1 buffered, 2 async
     pub source: u8,
@@ -122,6 +124,7 @@ struct Oracle<'a> {
     nontrivial: bool,
     skips: u32,
     skips_with_decl: u32,
+    mid_skips: u32,
     checked: u32,
 }
 
@@ -277,11 +280,13 @@ macro_rules! check_event {
 pub fn check(c: &Case) -> Verdict {
     let rendered = render(&c.doc);
     let data = rendered.text.clone();
-    let mut o = Oracle { r: &rendered, scopes: scopes(&rendered), idx: 0, pending_end: None, leaked: vec![], nontrivial: false, skips: 0, skips_with_decl: 0, checked: 0 };
+    let mut o = Oracle { r: &rendered, scopes: scopes(&rendered), idx: 0, pending_end: None, leaked: vec![], nontrivial: false, skips: 0, skips_with_decl: 0, mid_skips: 0, checked: 0 };
     let cfg = if c.expand_empty { EXPAND_EMPTY | CHECK_END_NAMES | TRIM_NAMES } else { CHECK_END_NAMES | TRIM_NAMES };
     let cuts = crate::sources::cuts_fixed(c.piece as usize, data.len());
     let mut call = 0usize;
     let bound = 2 * data.len() + 8;
+    let mut open: Vec<usize> = vec![];
+    let mut skip_rest = false;
 
     macro_rules! drive {
         ($r:ident, $skip_name:ident, $read_plain:expr, $read_resolved:expr, $skip:expr, $skip_text:expr) => {{
@@ -312,10 +317,11 @@ pub fn check(c: &Case) -> Verdict {
                         Err(e) => return Verdict::fail(format!("read error {:?} on a well-formed document {:?}", e, B::show(&data))),
                     }
                 };
-                if let (FlatKind::Start(_), Some(id)) | (FlatKind::Empty(_), Some(id)) = (&kind, id) {
-                    let expanded = matches!(kind, FlatKind::Empty(_)) && o.pending_end.is_some();
-                    if matches!(kind, FlatKind::Start(_)) || expanded {
-                        let action = (ch >> 1) & 3;
+                let action = (ch >> 1) & 3;
+                let expanded = matches!(kind, FlatKind::Empty(_)) && o.pending_end.is_some();
+                let is_open = matches!(kind, FlatKind::Start(_)) || expanded;
+                match (&kind, id) {
+                    (_, Some(id)) if is_open => {
                         if action >= 2 {
                             let name = rendered.elems[id].name.clone();
                             let $skip_name: &str = &name;
@@ -334,7 +340,40 @@ pub fn check(c: &Case) -> Verdict {
                             } else {
                                 o.idx = rendered.elems[id].close_idx + 1;
                             }
+                        } else {
+                            open.push(id);
                         }
+                    }
+                    (FlatKind::End(_), _) => {
+                        open.pop();
+                        if action >= 2 {
+                            skip_rest = true;
+                        }
+                    }
+                    _ => {
+                        if action >= 2 {
+                            skip_rest = true;
+                        }
+                    }
+                }
+                if skip_rest {
+                    skip_rest = false;
+                    // skip the REST of the innermost open element (called in the middle of its content)
+                    if let Some(id) = open.pop() {
+                        let name = rendered.elems[id].name.clone();
+                        let $skip_name: &str = &name;
+                        let res: Result<(), String> = if action == 3 { $skip_text } else { $skip };
+                        if let Err(m) = res {
+                            return Verdict::fail(format!("skipping the rest of <{}> failed: {} | doc {:?}", name, m, B::show(&data)));
+                        }
+                        o.skips += 1;
+                        o.mid_skips += 1;
+                        let d = decls_of(&rendered.elems[id]);
+                        if !d.is_empty() {
+                            o.skips_with_decl += 1;
+                            o.leaked.push((rendered.elems[id].close_idx, d));
+                        }
+                        o.idx = rendered.elems[id].close_idx + 1;
                     }
                 }
             }
@@ -397,6 +436,9 @@ pub fn check(c: &Case) -> Verdict {
     }
     if o.skips_with_decl > 0 {
         v.classes.push("skipped-element-with-declaration");
+    }
+    if o.mid_skips > 0 {
+        v.classes.push("skip-called-in-the-middle-of-an-element");
     }
     v.classes.push(["slice", "buffered", "async"][c.source.min(2) as usize]);
     if rendered.elems.iter().any(|e| decls_of(e).iter().any(|(_, u)| u.is_empty())) {
@@ -482,6 +524,33 @@ fn run(ctx: &Ctx) {
                     idx += 1;
                 }
                 out.push(Case { doc: d.clone(), choices, source, piece: [0, 1, 3][(i % 3) as usize], expand_empty: code % 2 == 1 });
+            }
+            out
+        },
+        check,
+    );
+    ctx.run_groups(
+        "small-trees-x-skip-rest-at-every-event",
+        docs.len() as u64 * 3,
+        false,
+        |i| {
+            let d = &docs[(i / 3) as usize];
+            let r = render(d);
+            let mut out = vec![];
+            // read plainly up to event k, then skip the rest of the innermost open element; go on
+            // reading; a second skip-rest later at event j
+            for k in 0..r.flat.len() {
+                for act in [2u8, 3] {
+                    let mut choices: Vec<u8> = (0..k).map(|x| (x % 2) as u8).collect();
+                    choices.push((k % 2) as u8 | (act << 1));
+                    out.push(Case { doc: d.clone(), choices: choices.clone(), source: (i % 3) as u8, piece: [0, 1, 3][(i % 3) as usize], expand_empty: k % 2 == 1 });
+                    for j in 1..4usize {
+                        let mut c2 = choices.clone();
+                        c2.extend((0..j).map(|x| (x % 2) as u8));
+                        c2.push(2 << 1);
+                        out.push(Case { doc: d.clone(), choices: c2, source: (i % 3) as u8, piece: 1, expand_empty: false });
+                    }
+                }
             }
             out
         },
